@@ -145,8 +145,10 @@ MANIFEST_ENTRY = {
     "category": "other",
     "text": ("Proved: window-confined selection of the FIFO seek, plugin keys as functions of the lot alone, key injectivity, prefix (fold-up-to-the-cut) "
              "postconditions of the to-date consumers (C06/C07/C10 evidence); checked syntactically over the AST: no state outlives a run in the matcher "
-             "modules, set_to_index pushes only lots up to the disposal's upper bound, the AVL probe and UTC keys. Bounded: for every curated/random "
-             "history and every cut point between distinct instants, the fractions of the full run dated up to the cut equal the run on the truncated history."),
+             "modules, set_to_index pushes only lots up to the disposal's upper bound, the AVL probe, the call sites inside ComputedData.__init__; decided by "
+             "evaluating the real key functions on 15 timestamps under two TZ settings: string order of the lot-window keys = order of (instant, row id). Bounded: for every curated/random "
+             "history and every cut point between distinct instants, the fractions of the full run dated up to the cut equal the run on the truncated history; "
+             "for every day boundary the run limited by that to-date equals the run on the history truncated there (figures, k/n numbering, yearly totals)."),
     "note": ("The two-run uniqueness argument of DESIGN 8.C09 is not discharged as a lemma over proved functional postconditions (the engine loop is not "
              "under an inductive invariant here): level 'other'. The to-date form inherits known finding 9.2 (mixed time zones) through C06/C07/C10."),
     "technique": "contract-based deductive verification of leaf functions + syntactic read-frame obligations over the AST + bounded native stand-in for the two-run relation (labelled bounded)",
